@@ -40,11 +40,21 @@ WEIGHTS = {
 }
 
 
+TOKENS = ("t1", "t2")
+WEIGHTS["tokens"] = [("add", 12), ("new", 6), ("commit", 10), ("flush", 6), ("rollback", 4), ("expunge", 5), ("expire", 5),
+                     ("get", 12), ("gett", 18), ("query", 6), ("queryt", 10), ("refresh", 3), ("delete", 3), ("close", 2),
+                     ("expunge_all", 1)]
+
+
 def pick(rng, profile, npool):
     names, ws = zip(*WEIGHTS[profile])
     k = rng.choices(names, ws)[0]
     if k == "query":
         return (k, int(rng.random() < 0.3), int(rng.random() < 0.3))
+    if k == "gett":
+        return (k, rng.choice(PKS), rng.choice(TOKENS))
+    if k == "queryt":
+        return (k, rng.choice(TOKENS), int(rng.random() < 0.3))
     if k in ("add", "delete", "expunge", "expire", "mtd", "merge", "refresh"):
         return (k, rng.randrange(npool))
     if k in ("mt", "setpk"):
@@ -114,6 +124,15 @@ def _worker(job):
     elif kind == "fixed":
         for eoc, ops in job[1]:
             out.append(compact(run_fixed(eoc, ops)))
+    elif kind == "tokens":  # identity tokens: direct oracle only, nothing goes to the model
+        from harness import lib_uow_oracle as O
+
+        _, seedstr, n, lo, hi, eoc_p = job
+        rng = random.Random(seedstr)
+        for _ in range(n):
+            eoc, ops, recs = gen_random_case(rng, "tokens", rng.randint(lo, hi), rng.random() < eoc_p)
+            two = any(r is not None and len({k for k, t, i in r["imap_t"]}) < len(r["imap_t"]) for r in recs)
+            out.append((eoc, ops, two, O.check_case_tokens(eoc, ops, recs)))
     return out
 
 
